@@ -40,8 +40,21 @@ def build_source(label):
                 # body, nested control-flow bodies included
                 cfgf = model.add_device_configuration("fn_mesh", num_devices=2, device_names=("CPU", "CUDA:0"))
                 cfgp = model.add_device_configuration("fn_pipe", num_devices=1)
+                def walk(g):
+                    # the harness's own traversal (the library's recursive iterator is part of what is checked)
+                    for n in list(g):
+                        yield n
+                        for a in n.attributes.values():
+                            if a.is_ref():
+                                continue
+                            if a.type == ir.AttributeType.GRAPH:
+                                yield from walk(a.as_graph())
+                            elif a.type == ir.AttributeType.GRAPHS:
+                                for sg in a.as_graphs():
+                                    yield from walk(sg)
+
                 for fn in model.functions.values():
-                    for n in fn.all_nodes():
+                    for n in walk(fn):
                         o0 = n.outputs[0] if n.outputs else None
                         if o0 is not None and o0.name and (o0.shape is None or len(o0.shape) > 0):
                             n.shard(o0, configuration=cfgf, axis=0, num_shards=2)
